@@ -1530,6 +1530,7 @@ class TransportLayer(TransportLayerLogic):
             self.rx_relay_queue.put(None)
 
         TransportLayerLogic.__init__(self, rxfn, txfn, address, error_handler, params, post_send_callback)
+        self.user_rxfn = self.rxfn   # rxfn as normalised by TransportLayerLogic: a legacy rxfn() without timeout parameter is wrapped
 
     def _read_relay_queue(self, timeout: Optional[float]) -> Optional[CanMessage]:
         try:
